@@ -264,6 +264,8 @@ def run(ctx):
             scen = "F7"
         elif "locksetScenarioReadErr" in rc_["text"]:
             scen = "readerr"
+        elif "locksetScenarioCiphers" in rc_["text"]:
+            scen = "ciphers"
         # what does the summary say about this pair?
         verdict, common = "outside-summary", []
         if side and ra and rb and sa and sb:
@@ -317,7 +319,7 @@ def run(ctx):
 
     ctx.coverage["rule"] = ("stress of every non-deprecated public method of a dialled session, of the accepted session and of the listener, "
                             "from concurrent goroutines with traffic in both directions, new peers arriving, and concurrent Close, per cipher/FEC "
-                            "class %s, %s ms each, plus the targeted scenarios GetOOBMaxSize/SetMtu, SetLogger/SetLogger and listener-read-error/session-Close (many listeners x sessions); evaluations = public-method "
+                            "class %s, %s ms each, plus the targeted scenarios GetOOBMaxSize/SetMtu, SetLogger/SetLogger, listener-read-error/session-Close (many listeners x sessions) and concurrent Encrypt/Decrypt on one BlockCrypt object of every cipher kind (as a session's post-processing and receive goroutines use it); evaluations = public-method "
                             "calls made under the race detector; non-trivial = those made in a scenario in which payload bytes were delivered end to end"
                             % ((rep or {}).get("extra", {}).get("scenarios"), (rep or {}).get("extra", {}).get("stress_ms_per_config")))
     ctx.level = "proof"
